@@ -68,6 +68,11 @@ def main():
             missed += 1
             continue
         ok = r.returncode == 1 and any(f"property={pid} " in l for l in vio)
+        if any("/no-obligations.json" in l for l in vio):
+            # the property has no contracts at all: nothing is claimed, so nothing was detected
+            print(f"UNCLAIMED {pid} {os.path.relpath(diff, VERIF)}")
+            shutil.rmtree(work, ignore_errors=True)
+            continue
         print(f"{'CAUGHT' if ok else 'MISSED'} {pid} {os.path.relpath(diff, VERIF)} ({time.time()-t0:.0f}s) {vio[0] if vio else ''}")
         if not ok:
             missed += 1
